@@ -31,6 +31,26 @@ def cases(tier, seed):
             if in_fragment(m):
                 for t in ksets:
                     yield ('SK', cm.with_ctc(m, t))
+    from . import families
+    for m in families.models():
+        # the propositional export of an [a..b] group lists every admissible combination (exponential):
+        # only groups of at most 6 children are exported in that form here
+        if in_fragment(m) and not any(sem.kind(a, b, len(k)) == 'cardinality' and len(k) > 6 for (_p, a, b, k) in sh.relations(m)):
+            yield ('S', m)
+    for t in families.deep_trees():
+        yield ('SK', cm.on_carrier([t]))
+    # identifiers that contain operator keywords as substrings (both exports)
+    kwnames = ['MONITOR', 'ANDROID', 'NOTES', 'XORG', 'ORacle', 'notAND', 'IMPLIESx', 'xREQUIRES', 'EXCLUDESy', 'EQUIVALENCEz', 'NOT1', 'Or', 'not_x', 'band']
+    for i in range(0, len(kwnames) - 2):
+        trio = kwnames[i:i + 3]
+        car = sh.M(sh.F('Fa', [sh.R(0, 1, [sh.F(trio[0])]), sh.R(0, 1, [sh.F(trio[1])]), sh.R(1, 2, [sh.F(trio[2]), sh.F('Zz')])]))
+        for t in list(cm.k1())[::4] + list(cm.k2_subset())[::6]:
+            yield ('SK', (car[0], (('c1', cm.map_names(t, {'x': trio[0], 'y': trio[1], 'z': trio[2]})),)))
+    # names that need quoting: only the SXFM export has a quoting convention
+    for nm in ('Live\u2028Chat', 'a b', 'a\x0cb', 'a\x85b', 'x\ry', 'Caf\u00e9', 'a-b'):
+        car = sh.M(sh.F('Fa', [sh.R(0, 1, [sh.F(nm, [sh.R(1, 1, [sh.F('Bb')])])]), sh.R(0, 1, [sh.F('Dc')])]))
+        yield ('SN', car)
+        yield ('SN', (car[0], (('c1', ('REQUIRES', 'Dc', nm)),)))
     for t1 in cm.k1()[::5]:
         for t2 in cm.k1()[::5]:
             yield ('SK', cm.on_carrier([t1, t2]))
@@ -101,6 +121,8 @@ def check(case):
         except sxfm.SXFMError as exc:
             out.append(Fail('splot-uninterpretable', str(exc)[:200]))
     # ---- propositional
+    if case[0] == 'SN':
+        return out
     try:
         text = PLWriter(engine.tmppath('m.exp'), fm).transform()
         engine.tick()
